@@ -52,8 +52,21 @@ pub fn check(sc: &Scenario, out: &RunOutput) -> OracleResult {
     let mut task_over = false;
     let mut first_peer_packet_seen = false;
     let mut reader_gone = false;
+    // bytes accepted in order / bytes the application has read; a zero window that the reader
+    // re-opens by draining everything must be announced at that very instant
+    let mut inorder_bytes: u64 = 0;
+    let mut read_bytes: u64 = 0;
+    let mut reopen_due: Option<T> = None;
     for (t, _, x) in &evs {
         let t = *t;
+        if let Some(td) = reopen_due {
+            if t > td {
+                if !task_over {
+                    res.violate(P, "window-reopen-not-announced", td, format!("the last datagram sent advertised a zero window; at {} the application read everything that had been received ({} bytes), yet no datagram with a non-zero window left at that instant", crate::hist::fmt_t(td), read_bytes));
+                }
+                reopen_due = None;
+            }
+        }
         // obligations that are overdue
         due.retain(|(dl, seq, why, td)| {
             if t > *dl && !task_over {
@@ -94,11 +107,10 @@ pub fn check(sc: &Scenario, out: &RunOutput) -> OracleResult {
                         } else if d_rel == 1 {
                             let had_gap = delivered.keys().any(|s| seq_diff(*s, cum) > 1);
                             delivered.insert(p.seq, p.payload.len());
-                            let before = cum;
                             while delivered.contains_key(&cum.wrapping_add(1)) {
                                 cum = cum.wrapping_add(1);
+                                inorder_bytes += delivered[&cum] as u64;
                             }
-                            let _ = before;
                             unacked_bytes += p.payload.len();
                             triggers += 1;
                             if had_gap {
@@ -173,9 +185,16 @@ pub fn check(sc: &Scenario, out: &RunOutput) -> OracleResult {
                 }
                 last_emit_ack = Some(p.ack);
                 last_emit_wnd_zero = Some(p.wnd == 0);
+                if p.wnd > 0 {
+                    reopen_due = None;
+                }
             }
             X::App(a) if a.half == Half::R && a.conn < 1000 => {
-                if let (AppKind::Read { .. }, AppRes::Ok(_)) = (&a.kind, &a.res) {
+                if let (AppKind::Read { .. }, AppRes::Ok(n)) = (&a.kind, &a.res) {
+                    read_bytes += *n as u64;
+                    if last_emit_wnd_zero == Some(true) && !reader_gone && established && !fin_accepted && read_bytes == inorder_bytes && inorder_bytes > 0 {
+                        reopen_due = Some(t);
+                    }
                     // a read may re-open a zero window: the update must leave at once
                     if last_emit_wnd_zero == Some(true) && !reader_gone {
                         // (the window is quantised to whole segments; it re-opens only once a
